@@ -12,6 +12,7 @@ Smoke test of the driver (fault at `open` of RETR):
 """
 import asyncio
 import errno
+import time
 import shutil
 import tempfile
 import types
@@ -110,9 +111,17 @@ KINDS = {
 }
 KIND_NAMES = tuple(k for k in KINDS if k != "slow")
 PATH_TIMEOUT = 3
+SEARCH_SECONDS = 90  # wall-clock box of the escalated failing-input search
+
+
+# operations whose result the server ignores (the interface documents None): a backend may return anything there.
+# A run whose kind ends in "/truthy" makes them return truthy values instead of None.
+RESULT_IGNORED = ("close", "mkdir", "rmdir", "unlink", "rename")
+TRUTHY = (1, True, 4096, "done", (0,), object())
 
 
 def kind_class(kind):
+    kind = kind.partition("/")[0]
     if kind == "slow":
         return "path_timeout-expiry"
     return type(KINDS[kind]("x")).__name__
@@ -122,7 +131,9 @@ class Ctl:
     """per-run switches of the fault injector"""
 
     def __init__(self, kind="os"):
+        kind, _, rv = kind.partition("/")
         self.kind = kind
+        self.truthy = rv == "truthy"
         self.gate_idx = {}  # backend call index -> asyncio.Event: the call parks there, then raises
         self.gate_ops = {}  # operation name -> asyncio.Event: the NEXT call of that operation parks, then raises
         self.parked = []
@@ -170,6 +181,11 @@ def fault_factory(base, plan, log, kind="os", ctl=None):
     harness releases it and raises then; log gets (operation, raised) per call"""
     ctl = ctl or Ctl(kind)
 
+    def ret(name, r):
+        if ctl.truthy and r is None and name in RESULT_IGNORED:
+            return TRUTHY[len(log) % len(TRUTHY)]
+        return r
+
     def make_exc(i, name):
         k = ctl.kind if ctl.kind != "slow" else "os"
         return KINDS[k](f"injected fault at backend call {i} ({name})")
@@ -200,7 +216,7 @@ def fault_factory(base, plan, log, kind="os", ctl=None):
                     if hit:
                         raise make_exc(i, name)
                     try:
-                        return await inner(self, *a, **k)
+                        return ret(name, await inner(self, *a, **k))
                     except (StopAsyncIteration, asyncio.CancelledError):
                         raise
                     except Exception:
@@ -212,7 +228,7 @@ def fault_factory(base, plan, log, kind="os", ctl=None):
                 def f(self, *a, **k):
                     i = tick(name)
                     try:
-                        return inner(self, *a, **k)
+                        return ret(name, inner(self, *a, **k))
                     except (StopAsyncIteration, StopIteration):
                         raise
                     except Exception:
@@ -308,7 +324,7 @@ def run_impl(events, plan, backend="memory", kind="os"):
     try:
 
         async def main(net):
-            kw = {"path_timeout": PATH_TIMEOUT} if kind == "slow" else {}
+            kw = {"path_timeout": PATH_TIMEOUT} if kind.startswith("slow") else {}
             server = ftpsim.make_server(USERS, TREE, backend, tmp, wait_future_timeout=1, block_size=BLK, **kw)
             server.path_io_factory.factory = fault_factory(server.path_io_factory.factory, plan, log, kind)
             await server.start("127.0.0.1", ftpsim.PORT)
@@ -316,7 +332,7 @@ def run_impl(events, plan, backend="memory", kind="os"):
             for who, verb, arg, payload in events:
                 if who not in sess:
                     sess[who] = Sess(net, server)
-                    sess[who].patience = 2 * PATH_TIMEOUT + 1 if kind == "slow" else 0
+                    sess[who].patience = 2 * PATH_TIMEOUT + 1 if kind.startswith("slow") else 0
                     await sess[who].start()
                 n0 = len(log)
                 r = await sess[who].ev(verb, arg, payload)
@@ -543,7 +559,11 @@ def check_rounds(ctx):
     cases = round_stream(ctx)
     aligned = 0
     obs = []
+    if getattr(ctx, "deadline", None):
+        cases = ctx.rng.sample(cases, min(len(cases), 300))
     for first, j, second, d in cases:
+        if getattr(ctx, "deadline", None) and time.time() > ctx.deadline:
+            break
         try:
             o = run_round_impl(first, j, second, d)
         except Exception as e:  # the implementation (or the driver on it) blew up: an observation, not the end of the run
@@ -825,7 +845,8 @@ def correspondence(ctx, budget=None):
         "that the backend's own with_timeout expires): MemoryPathIO for all, PathIO (tmpdir) and AsyncPathIO "
         "for subsets. Compared with the model per command: reply codes, backend call sequence with raise marks, data connection "
         "taken / closed (client-side EOF after 30 virtual seconds), bytes / listing received, session probe, server-side open data "
-        "transports, final tree. Non-trivial = distinct (backend, script, fault plan, class). SAME-ROUND stream: the j-th backend call "
+        "transports, final tree. Every other run uses a backend whose result-ignored operations (close, mkdir, rmdir, unlink, rename) return "
+        "truthy values instead of None. Non-trivial = distinct (backend, script, fault plan, class/return mode). SAME-ROUND stream: the j-th backend call "
         "of RETR / STOR / LIST / MLSD / MKD / DELE (every j) parks inside the backend; then either the next command line (PWD, or an "
         "unknown verb) is written but held on the wire, or a pipelined MKD / DELE parks in its own backend call; both are let go d loop "
         "iterations apart (quick d in -2..2, thorough -4..4) so that both tasks are done in ONE wake-up of the dispatcher (counted by a spy "
@@ -854,12 +875,17 @@ def correspondence(ctx, budget=None):
         for p in plans:
             # the exception class rotates over the positions; thorough: every single fault with every class
             kind = KIND_NAMES[(sum(p) + len(jobs)) % len(KIND_NAMES)] if p else "os"
+            # every other run on a backend whose result-ignored operations (close, mkdir, ...) return truthy values
+            if len(jobs) % 2 == 1:
+                kind += "/truthy"
             jobs.append((backend, name, events, p, kind))
-            if thorough and len(p) == 1 and backend == "memory":
+            if not p:
+                jobs.append((backend, name, events, p, "os/truthy"))
+            if thorough and not budget and len(p) == 1 and backend == "memory":
                 jobs.extend((backend, name, events, p, k2) for k2 in KIND_NAMES if k2 != kind)
             if len(p) == 1 and backend == "async":
                 # the operation outlasts path_timeout: the backend's own with_timeout expires (AsyncPathIO only has one)
-                jobs.append((backend, name, events, p, "slow"))
+                jobs.append((backend, name, events, p, "slow/truthy" if len(jobs) % 2 else "slow"))
     model_out = ctx.model([model_case(ev, p) for _, _, ev, p, _ in jobs])
     xcheck = []
     sites = {}
@@ -869,6 +895,11 @@ def correspondence(ctx, budget=None):
         ctx.count("faults_%d" % len(plan))
         if plan:
             ctx.count("raises_" + kind_class(kind))
+        if kind.endswith("/truthy"):
+            ctx.count("backend_returns_truthy_where_None_is_documented")
+        if getattr(ctx, "deadline", None) and time.time() > ctx.deadline:
+            ctx.notes.append("failing-input search stopped at its time box")
+            break
         ok, obs = check_case(ctx, name, events, plan, mo, backend, kind)
         for o in obs:
             for m, h in o["calls"]:
@@ -895,8 +926,10 @@ def search(ctx):
         ctx.notes.append(f"model switched off ({ctx.model_off}); no escalation of the search")
         return
     try:
+        # the thorough streams, sampled and time-boxed: the search must end with a verdict inside the quick budget
         ctx.tier = "thorough"
-        correspondence(ctx)
+        ctx.deadline = time.time() + SEARCH_SECONDS
+        correspondence(ctx, budget=25)
     except Exception as e:
         ctx.notes.append(f"search aborted: {e!r}")
 
